@@ -200,8 +200,14 @@ def judge(s, acc):
 
 def serial_noeffect(acc):
     """Atom serial numbers never influence predictions (full pipeline, literal files)."""
-    lib = gen.library()
-    base = lib.window('3SGB', 'I', 26, 5)
+    from .. import corpus
+    for which, base in (('peptide', gen.library().window('3SGB', 'I', 26, 5)),
+                        ('ligand-site', corpus.build(corpus.cutout_desc('4DFR', 'B', 26, 8.0))),
+                        ('c-terminus', corpus.build(corpus.window_desc('3SGB', 'I', 46, 5)))):
+        serial_noeffect_on(acc, which, base)
+
+
+def serial_noeffect_on(acc, which, base):
     text0 = gen.to_text(base)
     ref = pk.record(pk.run(text0))
     n = len(base.atoms)
@@ -210,20 +216,29 @@ def serial_noeffect(acc):
         'descending': lambda i: '%5d' % (n - i), 'duplicate': lambda i: '%5d' % 7,
         'negative': lambda i: '%5d' % (-i - 1), 'big': lambda i: '%5d' % (99999 - i),
         'hy36-max': lambda i: 'zzzz' + LO[i % 36], 'zero': lambda i: '    0',
-        'left-just': lambda i: ('%d' % (i + 1)).ljust(5),
+        'left-just': lambda i: ('%d' % (i + 1)).ljust(5), 'hetero-descending': lambda i: '%5d' % (i + 1),
+        'interleaved': lambda i: '%5d' % ((i * 7919) % 9973),
     }
     for name, f in variants.items():
         atoms = base.copy()
         for i, a in enumerate(atoms.atoms):
             a.serial = f(i)
-        rec = pk.record(pk.run(gen.to_text(atoms)))
+            if name == 'hetero-descending' and a.rec == 'HETATM':
+                a.serial = '%5d' % (n - i)
         acc.n += 1
         acc.nontrivial_n += 1
+        try:
+            rec = pk.record(pk.run(gen.to_text(atoms)))
+        except Exception as exc:
+            acc.outcomes['serial-rejected'] += 1
+            acc.viols.append(Viol(dict(kind='serial', variant=name, which=which), 'serial-noeffect', 'valid-serial-rejected/' + name,
+                                  '%s: %s' % (type(exc).__name__, str(exc)[:120]), inputs=dict(pdb=gen.to_text(atoms))))
+            continue
         from .. import cmp
         diff = cmp.diff_records(ref, rec, tol=0.0)
         acc.outcomes['serial-same' if not diff else 'serial-diff'] += 1
         if diff:
-            acc.viols.append(Viol(dict(kind='serial', variant=name), 'serial-noeffect',
+            acc.viols.append(Viol(dict(kind='serial', variant=name, which=which), 'serial-noeffect',
                                   'serial-influences-result/' + diff[0][0], 'serial variant %s changes %s' % (name, diff[0]),
                                   detail=diff[:5], inputs=dict(pdb=gen.to_text(atoms))))
 
